@@ -142,16 +142,8 @@ Probe(I) == CASE I = "IM"       -> << <<"M", "M">> >>
 \* dynamic types of the forms: "val" = T1, "ptr" = *T1, "nil"
 Implements(H, i, addr, I) == \A m \in IMeths(I) : MSrule(H, i, m, addr)
 
-\* A hierarchy with its method sets tabulated (TLC re-evaluates operators at every use;
-\* the forms below are computed on the tabulated hierarchy, the invariants on the plain one).
-Ext(H) == [n |-> H.n, emb |-> H.emb, meth |-> H.meth,
-           mst  |-> [j \in 1..H.n |-> MethodSet(H, j, FALSE)],
-           mspt |-> [j \in 1..H.n |-> MethodSet(H, j, TRUE)],
-           imp  |-> [a \in BOOLEAN |-> {I \in IFaces \cup HFaces \cup {"E"} : Implements(H, 1, a, I)}],
-           \* receiver kind of the method that Tj.m denotes
-           rkj  |-> [j \in 1..H.n |-> [m \in Meths |->
-                      IF Found(H, j, m) THEN H.meth[Last(Lookup(H, j, m))][m] ELSE "none"]]]
 ImplD(H, d, I) == d # "nil" /\ I \in H.imp[d = "ptr"]
+ImplJ(H, j, d, I) == d # "nil" /\ I \in H.impj[j][d = "ptr"]      \* dynamic type Tj / *Tj
 
 TIdx(t) == CHOOSE j \in 1..4 : t = TName[j] \/ t = PName[j]
 IsT(t)  == \E j \in 1..4 : t = TName[j]
@@ -166,45 +158,65 @@ StaticOK(H, S, t) ==
       [] IsPT(t)             -> IMeths(S) \subseteq H.mspt[TIdx(t)]
 
 \* the dynamic type d passes x.(t) / matches  case t
-AssertOk(H, d, t) ==
+\* (j: the dynamic type is Tj for d = "val", *Tj for d = "ptr")
+AssertOkJ(H, j, d, t) ==
     CASE d = "nil" -> t = "nil"
       [] t = "nil" -> FALSE
       [] t = "int" -> FALSE
-      [] IsT(t)    -> d = "val" /\ TIdx(t) = 1
-      [] IsPT(t)   -> d = "ptr" /\ TIdx(t) = 1
-      [] OTHER     -> IMeths(t) \subseteq (IF d = "ptr" THEN H.mspt[1] ELSE H.mst[1])
+      [] IsT(t)    -> d = "val" /\ TIdx(t) = j
+      [] IsPT(t)   -> d = "ptr" /\ TIdx(t) = j
+      [] OTHER     -> IMeths(t) \subseteq (IF d = "ptr" THEN H.mspt[j] ELSE H.mst[j])
+AssertOk(H, d, t) == AssertOkJ(H, 1, d, t)
 
 \* index of the first clause with a matching type, 0 = default
-RECURSIVE SwitchFrom(_, _, _, _)
-SwitchFrom(H, d, cl, k) ==
+RECURSIVE SwitchFrom(_, _, _, _, _)
+SwitchFrom(H, j, d, cl, k) ==
     IF k > Len(cl) THEN 0
-    ELSE IF \E u \in 1..Len(cl[k]) : AssertOk(H, d, cl[k][u]) THEN k
-    ELSE SwitchFrom(H, d, cl, k + 1)
-SwitchBranch(H, d, cl) == SwitchFrom(H, d, cl, 1)
+    ELSE IF \E u \in 1..Len(cl[k]) : AssertOkJ(H, j, d, cl[k][u]) THEN k
+    ELSE SwitchFrom(H, j, d, cl, k + 1)
+SwitchBranchJ(H, j, d, cl) == SwitchFrom(H, j, d, cl, 1)
+SwitchBranch(H, d, cl) == SwitchBranchJ(H, 1, d, cl)
 
 -------------------------------------------------------------------------------
 (* Memory.  The T1 object under test consists of one counter per embedding     *)
 (* path; F.ps lists the paths, cells are numbered, an INSTANCE maps path       *)
 (* positions to cells.  Copying a T1 value copies the cells that are not       *)
 (* behind a pointer and shares the others.                                     *)
-Facts(H) ==
-    LET ps == PathSeq(H, <<1>>)
+\* (r: the root type of the object; the forms A-E use r = 1)
+FactsR(H, r) ==
+    LET ps == PathSeq(H, <<r>>)
         pos(p) == CHOOSE k \in 1..Len(ps) : ps[k] = p
     IN [ps    |-> ps,
         np    |-> Len(ps),
         sh    |-> [k \in 1..Len(ps) |-> Shared(H, ps[k])],
-        found |-> [m \in Meths |-> Found(H, 1, m)],
-        pos   |-> [m \in Meths |-> IF Found(H, 1, m) THEN pos(Lookup(H, 1, m)) ELSE 0],
-        def   |-> [m \in Meths |-> IF Found(H, 1, m) THEN Last(Lookup(H, 1, m)) ELSE 0],
-        depth |-> [m \in Meths |-> IF Found(H, 1, m) THEN Len(Lookup(H, 1, m)) - 1 ELSE 0],
-        rk    |-> [m \in Meths |-> IF Found(H, 1, m) THEN H.meth[Last(Lookup(H, 1, m))][m] ELSE "none"],
+        found |-> [m \in Meths |-> Found(H, r, m)],
+        pos   |-> [m \in Meths |-> IF Found(H, r, m) THEN pos(Lookup(H, r, m)) ELSE 0],
+        def   |-> [m \in Meths |-> IF Found(H, r, m) THEN Last(Lookup(H, r, m)) ELSE 0],
+        depth |-> [m \in Meths |-> IF Found(H, r, m) THEN Len(Lookup(H, r, m)) - 1 ELSE 0],
+        rk    |-> [m \in Meths |-> IF Found(H, r, m) THEN H.meth[Last(Lookup(H, r, m))][m] ELSE "none"],
         \* the declaration met first when the embedded fields are searched depth-first in
         \* declaration order is not the shallowest one
         dfs   |-> [m \in Meths |->
-                    /\ Found(H, 1, m)
-                    /\ LET first == Min({k \in 1..Len(ps) : H.meth[Last(ps[k])][m] # "none"}) IN ps[first] # Lookup(H, 1, m)],
-        msv   |-> MethodSet(H, 1, FALSE),
-        msp   |-> MethodSet(H, 1, TRUE)]
+                    /\ Found(H, r, m)
+                    /\ LET first == Min({k \in 1..Len(ps) : H.meth[Last(ps[k])][m] # "none"}) IN ps[first] # Lookup(H, r, m)],
+        msv   |-> MethodSet(H, r, FALSE),
+        msp   |-> MethodSet(H, r, TRUE)]
+
+Facts(H) == FactsR(H, 1)
+FactsAll(H) == [j \in 1..H.n |-> FactsR(H, j)]
+
+\* A hierarchy with its method sets tabulated (TLC re-evaluates operators at every use;
+\* the forms below are computed on the tabulated hierarchy, the invariants on the plain one).
+Ext(H) == [n |-> H.n, emb |-> H.emb, meth |-> H.meth,
+           mst  |-> [j \in 1..H.n |-> MethodSet(H, j, FALSE)],
+           mspt |-> [j \in 1..H.n |-> MethodSet(H, j, TRUE)],
+           imp  |-> [a \in BOOLEAN |-> {I \in IFaces \cup HFaces \cup {"E"} : Implements(H, 1, a, I)}],
+           impj |-> [j \in 1..H.n |-> [a \in BOOLEAN |-> {I \in IFaces \cup HFaces \cup {"E"} : Implements(H, j, a, I)}]],
+           \* the facts about every root type (shared-site forms, classes)
+           fj   |-> FactsAll(H),
+           \* receiver kind of the method that Tj.m denotes
+           rkj  |-> [j \in 1..H.n |-> [m \in Meths |->
+                      IF Found(H, j, m) THEN H.meth[Last(Lookup(H, j, m))][m] ELSE "none"]]]
 
 MSD(F, d) == IF d = "ptr" THEN F.msp ELSE IF d = "val" THEN F.msv ELSE {}
 
@@ -261,7 +273,8 @@ Feat(F, R, d) ==
   \cup {"both"    : m \in {m \in R : Meths \subseteq MSD(F, d)}}
 
 Base == [k |-> "", s |-> "", d |-> "", t |-> "", m |-> "", cl |-> <<>>, lb |-> <<>>, r |-> "",
-         log |-> <<>>, fin |-> <<>>, aux |-> <<>>, ft |-> {}, fs |-> {}, x |-> ""]
+         log |-> <<>>, fin |-> <<>>, aux |-> <<>>, ft |-> {}, fs |-> {}, x |-> "",
+         j |-> 1, o |-> ""]     \* j: root type of the dynamic value; o: order (shared-site forms)
 
 Obs(F, b, r, st, aux) == [b EXCEPT !.r = r, !.log = st.log, !.fin = Cells(F, st, Ident(F)), !.aux = aux]
 
@@ -425,6 +438,80 @@ HostForms(H, F) ==
              \o viaI("IM", d) \o viaI("IN", d) \o viaI("IMN", d)])
 
 -------------------------------------------------------------------------------
+(* F. shared sites.  One helper function holds the assertion (one- and two-    *)
+(* result), the type switch or the call through an interface; it is called     *)
+(* successively with every dynamic value of the hierarchy that its parameter   *)
+(* type admits (Tj and *Tj for every j, and a nil interface), in two orders:   *)
+(* matching values first (o = "1") and non-matching values first (o = "2").    *)
+(* The verdict of a site is a function of the value it is given, not of the    *)
+(* values it has seen before (InvSiteHistoryFree): every call is predicted by  *)
+(* the same AssertOk / SwitchBranch / Call as the single-use forms.  The       *)
+(* objects are fresh (mkj(), counters 10 * position, no mutation).             *)
+SSrc  == <<"E", "IM", "IN">>
+STgt  == <<"IM", "IN", "IMN", "Stringer", "T1", "PT1">>
+STmpl == <<"conc", "ifc", "host", "mix">>
+
+DynVals(H, S) ==       \* <<j, d>> the parameter type S admits
+    SelectSeq(Flat([j \in 1..H.n |-> << <<j, "val">>, <<j, "ptr">> >>]), LAMBDA v : ImplJ(H, v[1], v[2], S))
+Reverse(q) == [i \in 1..Len(q) |-> q[Len(q) + 1 - i]]
+Ordered(vals, Match(_), o, withNil) ==
+    LET yes == SelectSeq(vals, Match)
+        no  == SelectSeq(vals, LAMBDA v : ~Match(v))
+        nl  == IF withNil THEN << <<1, "nil">> >> ELSE <<>>
+    IN IF o = "1" THEN yes \o no \o nl ELSE nl \o Reverse(no) \o Reverse(yes)
+
+SObs(FJ, b, r, v, t, probe) ==         \* observation of one call of the site with the value v
+    LET F  == FJ[v[1]]
+        hd == IF v[2] = "nil" THEN [st |-> Fresh(F), inst |-> Ident(F)] ELSE Capture(F, Fresh(F), v[2])
+        st == IF probe /\ IsI(t) THEN Calls(F, hd.st, hd.inst, Probe(t)) ELSE hd.st
+    IN [b EXCEPT !.r = r, !.log = st.log, !.j = v[1], !.d = v[2]]
+
+SharedForms(H, F1) ==
+    LET FJ == H.fj
+        feat(v, R) == IF v[2] = "nil" THEN {} ELSE Feat(FJ[v[1]], R, v[2])
+        assertSite(S, t, two, o) ==
+            IF ~StaticOK(H, S, t) THEN <<>>
+            ELSE LET vs == Ordered(DynVals(H, S), LAMBDA v : AssertOkJ(H, v[1], v[2], t), o, two)
+                 IN [i \in 1..Len(vs) |->
+                       LET v  == vs[i]
+                           ok == AssertOkJ(H, v[1], v[2], t)
+                           b  == [Base EXCEPT !.k = IF two THEN "sassert2" ELSE "sassert1", !.s = S, !.t = t, !.o = o,
+                                              !.fs = feat(v, IMeths(S)), !.ft = feat(v, IMeths(t))]
+                       IN SObs(FJ, b, IF two THEN (IF ok THEN "true" ELSE "false") ELSE (IF ok THEN "ok" ELSE "panic"), v, t, ok)]
+        switchSite(S, tn, o) ==
+            LET raw  == Templates(H)[tn]
+                legal(t) == StaticOK(H, S, t)
+                cut  == [k \in 1..Len(raw) |-> SelectSeq(raw[k], legal)]
+                keep == {k \in 1..Len(raw) : cut[k] # <<>>}
+                lb   == SeqOfSet(keep, [k \in 1..Len(raw) |-> k])
+                cl   == [u \in 1..Len(lb) |-> cut[lb[u]]]
+                bind == tn # "mix"
+                vs   == Ordered(DynVals(H, S), LAMBDA v : SwitchBranchJ(H, v[1], v[2], cl) # 0, o, TRUE)
+            IN [i \in 1..Len(vs) |->
+                  LET v  == vs[i]
+                      br == SwitchBranchJ(H, v[1], v[2], cl)
+                      b  == [Base EXCEPT !.k = "sswitch", !.s = S, !.t = tn, !.cl = cl, !.lb = lb, !.o = o,
+                                         !.m = IF bind THEN "bind" ELSE "",
+                                         !.fs = feat(v, IMeths(S)),
+                                         !.ft = feat(v, UNION {UNION {IMeths(cl[u][w]) : w \in 1..Len(cl[u])} : u \in 1..Len(cl)})]
+                  IN SObs(FJ, b, IF br = 0 THEN "def" ELSE ToString(lb[br]), v,
+                          IF br > 0 THEN cl[br][1] ELSE "nil", br > 0 /\ bind /\ v[2] # "nil")]
+        callSite(I, o) ==
+            LET vs == Ordered(DynVals(H, I), LAMBDA v : v[2] = "val", o, FALSE)
+            IN [i \in 1..Len(vs) |->
+                  SObs(FJ, [Base EXCEPT !.k = "scall", !.s = I, !.o = o, !.ft = feat(vs[i], IMeths(I))], "ok", vs[i], I, TRUE)]
+        O2 == <<"1", "2">>
+    IN    Flat([i \in 1..(Len(SSrc) * Len(STgt)) |->
+                 LET S == SSrc[((i - 1) \div Len(STgt)) + 1]
+                     t == STgt[((i - 1) % Len(STgt)) + 1]
+                 IN assertSite(S, t, TRUE, "1") \o assertSite(S, t, TRUE, "2") \o assertSite(S, t, FALSE, "1")])
+       \o Flat([i \in 1..(Len(SSrc) * Len(STmpl)) |->
+                 LET S  == SSrc[((i - 1) \div Len(STmpl)) + 1]
+                     tn == STmpl[((i - 1) % Len(STmpl)) + 1]
+                 IN switchSite(S, tn, "1") \o switchSite(S, tn, "2")])
+       \o Flat([i \in 1..6 |-> callSite(IOrd[((i - 1) \div 2) + 1], O2[((i - 1) % 2) + 1])])
+
+-------------------------------------------------------------------------------
 (* Classes of forms on which the unchanged interpreter is known to deviate     *)
 (* (/verif/known-findings.json, one class per root cause).  The class of a     *)
 (* form is computed from the model-level case only; it is the trigger part of  *)
@@ -433,16 +520,17 @@ HostForms(H, F) ==
 (* The seeded tier does not generate the classes (operators Excluded_F_C05_k), the *)
 (* exhaustive tier runs them and reports the listed findings.                  *)
 NameOK(F, t) == \A m \in IMeths(t) : F.found[m]         \* every method of t exists by NAME, whatever its receiver
-IsAssert(f)  == f.k \in {"assert1", "assert2", "assert2c"}
+IsAssert(f)  == f.k \in {"assert1", "assert2", "assert2c", "sassert1", "sassert2"}
+IsSwitch(f)  == f.k \in {"switch", "sswitch"}
 HostSrc(f)   == f.s \in {"error", "Stringer"}
 OkExpected(f) == f.r \in {"true", "ok"}
 
 \* first clause holding a type IDENTICAL to the dynamic type (what matching by type identity gives)
-RECURSIVE IdFrom(_, _, _)
-IdFrom(d, cl, k) ==
+RECURSIVE IdFrom(_, _, _, _)
+IdFrom(j, d, cl, k) ==
     IF k > Len(cl) THEN 0
-    ELSE IF \E u \in 1..Len(cl[k]) : (d = "val" /\ cl[k][u] = "T1") \/ (d = "ptr" /\ cl[k][u] = "PT1") THEN k
-    ELSE IdFrom(d, cl, k + 1)
+    ELSE IF \E u \in 1..Len(cl[k]) : (d = "val" /\ cl[k][u] = TName[j]) \/ (d = "ptr" /\ cl[k][u] = PName[j]) THEN k
+    ELSE IdFrom(j, d, cl, k + 1)
 HasCase(f, S) == \E u \in 1..Len(f.cl) : \E w \in 1..Len(f.cl[u]) : f.cl[u][w] \in S
 
 \* F-C05-1 (DESIGN 5.11): interface targets are decided from method NAMES / type identity,
@@ -450,14 +538,14 @@ HasCase(f, S) == \E u \in 1..Len(f.cl) : \E w \in 1..Len(f.cl[u]) : f.cl[u][w] \
 Excluded_F_C05_1(F, f) ==
     \/ /\ IsAssert(f) /\ f.s \in IFaces /\ f.d = "val" /\ f.t \in IFaces \cup HFaces
        /\ ~OkExpected(f) /\ NameOK(F, f.t)
-    \/ /\ f.k = "switch" /\ f.s \in IFaces /\ f.d # "nil"
-       /\ f.r # (LET b == IdFrom(f.d, f.cl, 1) IN IF b = 0 THEN "def" ELSE ToString(f.lb[b]))
+    \/ /\ IsSwitch(f) /\ f.s \in IFaces /\ f.d # "nil"
+       /\ f.r # (LET b == IdFrom(f.j, f.d, f.cl, 1) IN IF b = 0 THEN "def" ELSE ToString(f.lb[b]))
 \* F-C05-2: nil interface values in two-result assertions and in type switches
 Excluded_F_C05_2(F, f) ==
-    \/ /\ f.k \in {"assert2", "assert2c"} /\ f.d = "nil"
+    \/ /\ f.k \in {"assert2", "assert2c", "sassert2"} /\ f.d = "nil"
        /\ \/ f.s \in {"E", "error", "Stringer"} /\ f.t \in HFaces
           \/ f.s \in IFaces /\ IsI(f.t)
-    \/ /\ f.k = "switch" /\ f.d = "nil"
+    \/ /\ IsSwitch(f) /\ f.d = "nil"
        /\ \/ f.s \in IFaces /\ HasCase(f, {"nil"})
           \/ f.s = "E" /\ f.m = "bind" /\ HasCase(f, {"E"})
           \/ HostSrc(f) /\ f.m = "bind" /\ HasCase(f, HFaces)
@@ -465,16 +553,16 @@ Excluded_F_C05_2(F, f) ==
 \* interface types and type switches
 Excluded_F_C05_3(F, f) ==
     \/ /\ IsAssert(f) /\ f.s = "E" /\ f.d # "nil"
-       /\ \/ f.t \in IFaces /\ NameOK(F, f.t) /\ (OkExpected(f) \/ f.k # "assert1")
+       /\ \/ f.t \in IFaces /\ NameOK(F, f.t) /\ (OkExpected(f) \/ f.k \notin {"assert1", "sassert1"})
           \/ f.t \in HFaces /\ (OkExpected(f) \/ f.d = "val")
           \/ f.t = "E" /\ ~\E m \in Meths : F.found[m] /\ F.depth[m] = 0 /\ (f.d = "val" \/ F.rk[m] = "ptr")
-    \/ f.k = "switch" /\ f.s = "E" /\ f.d # "nil"
+    \/ IsSwitch(f) /\ f.s = "E" /\ f.d # "nil"
 \* F-C05-4: source of a host interface type (error, fmt.Stringer) holding an interpreted value
 Excluded_F_C05_4(F, f) ==
     \/ /\ IsAssert(f) /\ HostSrc(f) /\ f.d # "nil"
-       /\ \/ OkExpected(f) /\ f.t # f.s /\ f.t # "PT1"
-          \/ ~OkExpected(f) /\ f.d = "val" /\ (IsT(f.t) \/ IsPT(f.t)) /\ TIdx(f.t) # 1
-    \/ f.k = "switch" /\ HostSrc(f) /\ f.d # "nil"
+       /\ \/ OkExpected(f) /\ f.t # f.s /\ f.t # PName[f.j]
+          \/ ~OkExpected(f) /\ f.d = "val" /\ (IsT(f.t) \/ IsPT(f.t)) /\ TIdx(f.t) # f.j
+    \/ IsSwitch(f) /\ HostSrc(f) /\ f.d # "nil"
 \* F-C05-5: x.(Tj) rejected as impossible although Tj has the pointer-receiver method through an embedded pointer
 Excluded_F_C05_5(X, f) ==
     IsAssert(f) /\ f.s # "E" /\ IsT(f.t) /\ \E m \in IMeths(f.s) : X.rkj[TIdx(f.t)][m] = "ptr"
@@ -497,9 +585,19 @@ Excluded_F_C05_8(F, f) ==
 RelM(f) == ({f.m} \cap Meths) \cup IMeths(f.s) \cup IMeths(f.t)
            \cup UNION {UNION {IMeths(f.cl[u][w]) : w \in 1..Len(f.cl[u])} : u \in 1..Len(f.cl)}
            \cup (IF f.k \in {"sprint", "errorf", "sprinti", "fprint", "sort"} THEN Meths ELSE {})
-Excluded_F_C05_9(F, f) == \E m \in RelM(f) : F.dfs[m]
+Excluded_F_C05_9(FJ, f) ==
+    \/ \E m \in RelM(f) : FJ[f.j].dfs[m]
+    \* (the static check of x.(Tk) looks the methods of x's type up from Tk)
+    \/ (IsT(f.t) \/ IsPT(f.t)) /\ \E m \in IMeths(f.s) : FJ[TIdx(f.t)].dfs[m]
 
-Class(X, F, f) ==
+\* F-C05-10: an assertion to a host interface type of an interpreted-interface value that was made
+\* in ANOTHER function (the shared-site helpers take it as a parameter): the wrapper is built by
+\* re-evaluating, in the current frame, the node that created the value
+Excluded_F_C05_10(F, f) ==
+    f.k \in {"sassert1", "sassert2"} /\ f.s \in IFaces /\ f.t \in HFaces /\ f.d # "nil" /\ OkExpected(f)
+
+Class(X, FJ, f) ==
+    LET F == FJ[f.j] IN
     CASE Excluded_F_C05_5(X, f) -> "F-C05-5 assertion to a struct type from a non-empty interface one of whose methods has a pointer receiver"
       [] Excluded_F_C05_2(F, f) -> "F-C05-2 nil interface value in a two-result assertion or type switch"
       [] Excluded_F_C05_4(F, f) -> "F-C05-4 assertion or type switch on a value of host interface type (error, fmt.Stringer) holding an interpreted value"
@@ -508,15 +606,18 @@ Class(X, F, f) ==
       [] Excluded_F_C05_6(F, f) -> "F-C05-6 struct value held by an interface or method value, variable mutated afterwards"
       [] Excluded_F_C05_7(F, f) -> "F-C05-7 method expression of a promoted method, of a value method through *T, or used as a function value"
       [] Excluded_F_C05_8(F, f) -> "F-C05-8 interpreted value with Error/String/Write methods passed to a fmt function"
-      [] Excluded_F_C05_9(F, f) -> "F-C05-9 method also declared deeper below an earlier embedded field (depth-first lookup)"
+      [] Excluded_F_C05_10(F, f) -> "F-C05-10 assertion to a host interface type of an interpreted-interface value received as a parameter"
+      [] Excluded_F_C05_9(FJ, f) -> "F-C05-9 method also declared deeper below an earlier embedded field (depth-first lookup)"
       [] OTHER -> ""
 
-Classify(X, F, fs) == [i \in 1..Len(fs) |-> [fs[i] EXCEPT !.x = Class(X, F, fs[i])]]
+\* (FJ[j]: the facts about the root type of the form's dynamic value)
+Classify(X, FJ, fs) == [i \in 1..Len(fs) |-> [fs[i] EXCEPT !.x = Class(X, FJ, fs[i])]]
 
 AllForms(H) ==
     LET F == Facts(H)
         X == Ext(H) IN
-    Classify(X, F, StaticForms(X, F) \o IfaceForms(X, F) \o AssertForms(X, F) \o SwitchForms(X, F) \o HostForms(X, F))
+    Classify(X, X.fj, StaticForms(X, F) \o IfaceForms(X, F) \o AssertForms(X, F) \o SwitchForms(X, F) \o HostForms(X, F)
+                             \o SharedForms(X, F))
 
 -------------------------------------------------------------------------------
 VARIABLES h, phase, forms
@@ -542,15 +643,16 @@ Keep(fs) == IF Exclude THEN SelectSeq(fs, LAMBDA f : f.x = "") ELSE fs
 Step(from, to, gen(_, _)) ==
     /\ phase = from
     /\ phase' = to
-    /\ forms' = forms \o Keep(Classify(Ext(h), Facts(h), gen(Ext(h), Facts(h))))
+    /\ forms' = forms \o (LET X == Ext(h) IN Keep(Classify(X, X.fj, gen(X, X.fj[1]))))
     /\ UNCHANGED h
 
 GenStatic == Step("static", "iface",  StaticForms)
 GenIface  == Step("iface",  "assert", IfaceForms)
 GenAssert == Step("assert", "switch", AssertForms)
 GenSwitch == Step("switch", "host",   SwitchForms)
-GenHost   == Step("host",   "done",   HostForms)
-Next == GenStatic \/ GenIface \/ GenAssert \/ GenSwitch \/ GenHost
+GenHost   == Step("host",   "shared", HostForms)
+GenShared == Step("shared", "done",   SharedForms)
+Next == GenStatic \/ GenIface \/ GenAssert \/ GenSwitch \/ GenHost \/ GenShared
 Spec == Init /\ [][Next]_vars
 
 \* seeded simulation: MaxN types, at most two embedded types per struct, shadowing
@@ -577,8 +679,8 @@ InvAssertIffImpl ==
     phase = "done" =>
     \A k \in 1..Len(forms) :
        LET f == forms[k] IN
-       (f.k \in {"assert1", "assert2", "assert2c"} /\ IsI(f.t) /\ f.d # "nil") =>
-           ((f.r \in {"true", "ok"}) <=> Implements(h, 1, f.d = "ptr", f.t))
+       (IsAssert(f) /\ IsI(f.t) /\ f.d # "nil") =>
+           ((f.r \in {"true", "ok"}) <=> Implements(h, f.j, f.d = "ptr", f.t))
 \* a value stored in an interface is a copy: whatever is then done through the interface
 \* leaves the counters of v that are not behind a pointer at their mutated initial values
 InvIfaceCopy ==
@@ -594,11 +696,24 @@ InvSwitchFirst ==
     phase = "done" =>
     \A k \in 1..Len(forms) :
        LET f == forms[k] IN
-       f.k = "switch" =>
+       IsSwitch(f) =>
           \A u \in 1..Len(f.cl) :
              (f.r = ToString(f.lb[u])) =>
-                /\ \E w \in 1..Len(f.cl[u]) : AssertOk(Ext(h), f.d, f.cl[u][w])
-                /\ \A u2 \in 1..(u - 1) : \A w \in 1..Len(f.cl[u2]) : ~AssertOk(Ext(h), f.d, f.cl[u2][w])
+                /\ \E w \in 1..Len(f.cl[u]) : AssertOkJ(Ext(h), f.j, f.d, f.cl[u][w])
+                /\ \A u2 \in 1..(u - 1) : \A w \in 1..Len(f.cl[u2]) : ~AssertOkJ(Ext(h), f.j, f.d, f.cl[u2][w])
+\* the verdict of an assertion / switch / call site depends on the value it is given only, not on
+\* the values the site has seen before: whatever the position of a call in whatever order, and
+\* whether the site is shared or used once, the same (construct, source type, target, dynamic
+\* value) has the same outcome, and the shared sites invoke the same methods
+BaseKind(k) == CASE k \in {"assert1", "sassert1"} -> "a1" [] k \in {"assert2", "sassert2"} -> "a2"
+                 [] k \in {"switch", "sswitch"} -> "sw" [] k \in {"icall", "scall"} -> "c" [] OTHER -> k
+InvSiteHistoryFree ==
+    phase = "done" =>
+    LET sh  == {k \in 1..Len(forms) : forms[k].o # ""}
+        all == sh \cup {k \in 1..Len(forms) : forms[k].k \in {"assert1", "assert2", "switch", "icall"}}
+        key(k) == LET f == forms[k] IN <<BaseKind(f.k), f.s, f.t, f.cl, f.j, f.d>>
+    IN /\ Cardinality({key(k) : k \in all}) = Cardinality({<<key(k), forms[k].r>> : k \in all})
+       /\ Cardinality({key(k) : k \in sh}) = Cardinality({<<key(k), forms[k].r, forms[k].log>> : k \in sh})
 
 \* behaviours are handed to the harness from an always-true invariant
 \* (facts: how M and N are found from T1, for the reader of a replay file)
